@@ -288,6 +288,25 @@ func checkCase(c joinCase) evid.Outcome {
 		if !bytes.Equal(g.Encode(), f.Encode()) {
 			return evid.Fail("DecryptJoinAcceptPayload gives payload|MIC %x, original %x", g.Encode(), f.Encode())
 		}
+		// a decrypted join-accept is a value like any other: edit a field, the MIC and bytes follow the edit
+		{
+			e := q
+			ja, ok := e.MACPayload.(*lorawan.JoinAcceptPayload)
+			if ok {
+				ed := f
+				ed.RXDelay = (f.RXDelay + 1) & 0x0f
+				ed.DevAddr = f.DevAddr ^ 0x00010000
+				ja.RXDelay, ja.DevAddr = ed.RXDelay, gen.Addr(ed.DevAddr)
+				if err := e.SetDownlinkJoinMIC(lorawan.JoinType(c.ReqType), gen.EUI(c.JoinEUI), lorawan.DevNonce(c.DevNonce), gen.LibKey(toKey(c.Key))); err != nil {
+					return evid.Fail("SetDownlinkJoinMIC on an edited decrypted join-accept: %v", err)
+				}
+				exp := ref.JoinAcceptMIC(toKey(c.Key), ed.OptNeg, c.ReqType, c.JoinEUI, c.DevNonce, ed.Msg())
+				if [4]byte(e.MIC) != exp {
+					return evid.Fail("join-accept decrypted, then RXDelay and DevAddr edited: SetDownlinkJoinMIC gives %x, the specification MIC of the edited payload %x is %x (the edit was ignored)", e.MIC[:], ed.MACPayloadBytes(), exp[:])
+				}
+				ja.RXDelay, ja.DevAddr = f.RXDelay, gen.Addr(f.DevAddr) // restore: q is used below
+			}
+		}
 		// decrypting the same received ciphertext object twice gives the same result
 		q2 := lorawan.PHYPayload{MHDR: q.MHDR, MACPayload: &lorawan.DataPayload{Bytes: append(make([]byte, 0, len(wantCT)+8), wantCT[:len(wantCT)-4]...)}}
 		copy(q2.MIC[:], wantCT[len(wantCT)-4:])
